@@ -60,6 +60,9 @@ type Case struct {
 	Direct   bool              `json:"direct"`
 	Repeat   int               `json:"repeat"` // in-process: how often the whole sequence is run
 	CLI      bool              `json:"cli,omitempty"`
+	// cli: some of the names are already defined in the environment taskctl is started with; an override is still
+	// an override of that stage only, everybody else sees the inherited value
+	ParentEnv map[string]string `json:"parent_env,omitempty"`
 	Mode     string            `json:"mode,omitempty"` // "real": shared task object + real runner
 }
 
@@ -136,6 +139,9 @@ func record(c Case) {
 	}
 	if c.CLI {
 		cls = append(cls, "cli")
+	}
+	if len(c.ParentEnv) > 0 {
+		cls = append(cls, "names inherited from the parent environment")
 	}
 	drv.Eval(cls...)
 	if nontrivial(c) {
@@ -342,6 +348,9 @@ func runCLI(c Case, dir string) error {
 	cfg := gen.Map{{K: "tasks", V: gen.Map{{K: "shared", V: tk}}}, {K: "pipelines", V: pipes}}
 	os.WriteFile(filepath.Join(dir, "t.yaml"), []byte(gen.YAML(cfg)), 0o644)
 	env := cli.Env{Bin: drv.Bin(), Dir: dir, Home: filepath.Join(dir, "home")}
+	for _, k := range gen.SortedKeys(c.ParentEnv) {
+		env.Extra = append(env.Extra, k+"="+c.ParentEnv[k])
+	}
 	args := []string{"-c", "t.yaml", "--raw", "p1"}
 	if len(c.P2) > 0 {
 		args = append(args, "p2")
@@ -373,13 +382,13 @@ func runCLI(c Case, dir string) error {
 		if s.Dir != "" {
 			wd = filepath.Join(dir, s.Dir)
 		}
-		w := want(overlay(overlay(runnerEnv, c.TaskEnv), s.Env), overlay(c.TaskVars, s.Vars), wd)
+		w := want(overlay(overlay(overlay(runnerEnv, c.ParentEnv), c.TaskEnv), s.Env), overlay(c.TaskVars, s.Vars), wd)
 		if g := got[s.Name]; len(g) != 1 || g[0] != w {
 			return fmt.Errorf("stage %s printed %q, want [%q] (task settings overlaid by this stage's only); all lines: %q", s.Name, g, w, string(data))
 		}
 	}
 	if c.Direct {
-		w := want(overlay(runnerEnv, c.TaskEnv), c.TaskVars, taskDir)
+		w := want(overlay(overlay(runnerEnv, c.ParentEnv), c.TaskEnv), c.TaskVars, taskDir)
 		if g := got["direct"]; len(g) != 1 || g[0] != w {
 			return fmt.Errorf("direct run printed %q, want [%q] (the task's own settings); all lines: %q", g, w, string(data))
 		}
@@ -550,6 +559,9 @@ func genCase(rt *rapid.T, cliMode bool) Case {
 	if cliMode && rapid.IntRange(0, 2).Draw(rt, "tdir") == 0 {
 		c.TaskDir = "dir_task"
 	}
+	if cliMode && rapid.Bool().Draw(rt, "inherited") {
+		c.ParentEnv = genMap(rt, "penv", "parent", envKeys[:4])
+	}
 	c.P1 = genStages(rt, "s", 2, 6, cliMode)
 	if rapid.Bool().Draw(rt, "second") {
 		c.P2 = genStages(rt, "q", 1, 3, cliMode)
@@ -578,6 +590,7 @@ func TestReal(t *testing.T) {
 		c := genCase(rt, true)
 		c.CLI = false
 		c.TaskDir = ""
+		c.ParentEnv = nil
 		c.Mode = "real"
 		drv.Sample(c)
 		record(c)
